@@ -67,9 +67,11 @@ Proof. repeat split; reflexivity. Qed.
 
 (* the GENERATED whole method sptensor.squeeze (Gen/GenSptensor4b.v) returns exactly what the code-path model squeeze_sp_impl of
    Model/C07Impl.v returns — a tensor, the bare entry, or the refusal of .item() on more than one stored value — on every
-   coordinate list with at least one mode, in-range subscripts and one value per row; with C07_squeeze_sparse_code (distinct
-   subscripts) that is the squeeze model of Model/C07Ops.v with its index law (C07_squeeze_sparse) *)
-Theorem C07_squeeze_sparse_generated : forall S : sparse Z, sshape S <> nil ->
+   coordinate list with at least one mode, POSITIVE mode sizes, in-range subscripts and one value per row; with C07_squeeze_sparse_code
+   (distinct subscripts) that is the squeeze model of Model/C07Ops.v with its index law (C07_squeeze_sparse).  Holds for the text
+   with the singleton test `shape > 1` (/repo up to 6e4bb42) and for the repaired text `shape != 1` (fixes/C07-N-C07-7.diff): the
+   proof script checks whichever text was regenerated on this run (Proofs/C07GenSq.v sq_text) *)
+Theorem C07_squeeze_sparse_generated : forall S : sparse Z, sshape S <> nil -> forallb (Nat.ltb 0) (sshape S) = true ->
   Forall (fun j => inb (sshape S) j = true) (ssubs S) -> length (svals S) = length (ssubs S) ->
   sptensor_squeeze (of_Sp S) =
     match squeeze_sp_impl 0%Z S with
@@ -80,16 +82,54 @@ Theorem C07_squeeze_sparse_generated : forall S : sparse Z, sshape S <> nil ->
 Proof. exact gen_sp_squeeze_model. Qed.
 Print Assumptions C07_squeeze_sparse_generated.
 
-Theorem C07_squeeze_sparse_generated_res : forall S : sparse Z, sshape S <> nil ->
+Theorem C07_squeeze_sparse_generated_res : forall S : sparse Z, sshape S <> nil -> forallb (Nat.ltb 0) (sshape S) = true ->
   Forall (fun j => inb (sshape S) j = true) (ssubs S) -> length (svals S) = length (ssubs S) ->
   sptensor_squeeze_res (of_Sp S) = squeeze_sp_impl 0%Z S.
 Proof. exact gen_sp_squeeze_res. Qed.
 Print Assumptions C07_squeeze_sparse_generated_res.
 
+(* EVERY shape (size-0 modes included): the generated method returns what sptensor.squeeze's return statements return with the
+   singleton test the regenerated text contains.  sq_text_keeps_zero (Model/C07Gen4.v) is a closed boolean computed from the
+   regenerated text — the generated method on the witness of N-C07-7, shape (2,0,1), answers with shape (2,0) —: false on the text
+   `shape > 1` (squeeze_sp_impl, a size-0 mode is dropped like a singleton), true on the repaired text `shape != 1` (squeeze_sp_impl_ne) *)
+Theorem C07_squeeze_sparse_generated_any_shape : forall S : sparse Z, sshape S <> nil ->
+  Forall (fun j => inb (sshape S) j = true) (ssubs S) -> length (svals S) = length (ssubs S) ->
+  sptensor_squeeze_res (of_Sp S) = if sq_text_keeps_zero then squeeze_sp_impl_ne 0%Z S else squeeze_sp_impl 0%Z S.
+Proof. exact gen_sp_squeeze_text_res. Qed.
+Print Assumptions C07_squeeze_sparse_generated_any_shape.
+
+(* a holder with a size-0 mode (out of tensor.to_sptensor(); nothing can be stored): a text that keeps the size-0 mode of the probe
+   answers EVERY such holder exactly as the property demands (squeeze_sp_any of Model/C07W5.v, C07_squeeze_sparse_zero_mode: every
+   size-0 mode kept, a tensor, what tensor.squeeze answers on the dense holder — C07_repr_agree_squeeze_any_shape); the text of
+   /repo up to 6e4bb42 answers with squeeze_sp_impl (finding N-C07-7).  The check evaluates the probe on every run (op squeeze_sp_text) *)
+Theorem C07_squeeze_sparse_zero_mode_generated : forall S : sparse Z,
+  Forall (fun j => inb (sshape S) j = true) (ssubs S) -> length (svals S) = length (ssubs S) -> In 0%nat (sshape S) ->
+  sptensor_squeeze_res (of_Sp S) = if sq_text_keeps_zero then Some (squeeze_sp_any 0%Z S) else squeeze_sp_impl 0%Z S.
+Proof. exact gen_sp_squeeze_zero_mode. Qed.
+Print Assumptions C07_squeeze_sparse_zero_mode_generated.
+
+(* the return statements of the repaired text on such a holder are the demanded behaviour *)
+Theorem C07_squeeze_sparse_zero_mode_code : forall S : sparse Z,
+  Forall (fun j => inb (sshape S) j = true) (ssubs S) -> length (svals S) = length (ssubs S) -> In 0%nat (sshape S) ->
+  squeeze_sp_impl_ne 0%Z S = Some (squeeze_sp_any 0%Z S).
+Proof. exact impl_ne_zero_mode. Qed.
+Print Assumptions C07_squeeze_sparse_zero_mode_code.
+
+(* on positive sizes the two singleton tests are the same return statements *)
+Theorem C07_squeeze_sparse_code_tests_agree : forall S : sparse Z, forallb (Nat.ltb 0) (sshape S) = true ->
+  squeeze_sp_impl_ne 0%Z S = squeeze_sp_impl 0%Z S.
+Proof. exact (impl_ne_pos 0%Z). Qed.
+Print Assumptions C07_squeeze_sparse_code_tests_agree.
+
 Example C07_example_generated_squeeze :
   sptensor_squeeze_res (mkspt [[1; 0; 2]; [0; 0; 1]] [7; -3] [2; 1; 3]) = Some (C07Ops.SqT (mkSp [2; 3]%nat [[1; 2]; [0; 1]]%nat [7; -3])) /\
   sptensor_squeeze_res (mkspt [[0; 0]] [9] [1; 1]) = Some (C07Ops.SqScalar 9) /\
-  sptensor_squeeze_res (mkspt [[0; 0]; [0; 0]] [9; 4] [1; 1]) = None.
+  sptensor_squeeze_res (mkspt [[0; 0]; [0; 0]] [9; 4] [1; 1]) = None /\
+  (* the return statements with `shape != 1` on the witness of N-C07-7 and its siblings *)
+  squeeze_sp_impl_ne 0 (mkSp [2; 0; 1]%nat [] []) = Some (C07Ops.SqT (mkSp [2; 0]%nat [] [])) /\
+  squeeze_sp_impl_ne 0 (mkSp [1; 0]%nat [] []) = Some (C07Ops.SqT (mkSp [0]%nat [] [])) /\
+  squeeze_sp_impl_ne 0 (mkSp [0]%nat [] []) = Some (C07Ops.SqT (mkSp [0]%nat [] [])) /\
+  squeeze_sp_impl_ne 0 (mkSp [1; 1]%nat [] []) = Some (C07Ops.SqScalar 0).
 Proof. repeat split; reflexivity. Qed.
 
 Example C07_example_generated_requests :
